@@ -22,12 +22,6 @@ pub assume_specification<T, A: std::alloc::Allocator> [VecDeque::<T, A>::back] (
     ensures match r { Some(x) => v@.len() > 0 && *x == v@.last(), None => v@.len() == 0 };
 pub assume_specification<T, A: std::alloc::Allocator> [VecDeque::<T, A>::front] (v: &VecDeque<T, A>) -> (r: Option<&T>)
     ensures match r { Some(x) => v@.len() > 0 && *x == v@[0], None => v@.len() == 0 };
-#[derive(Debug, Clone, Copy, PartialEq, Eq, Structural)]
-pub struct StatusCode { pub bits: u32 }
-impl StatusCode {
-    pub const Good: StatusCode = StatusCode { bits: 0 };
-    pub const BadContinuationPointInvalid: StatusCode = StatusCode { bits: 0x804A_0000 };
-}
 // timestamps as tick counts (chrono::DateTime<Utc> is totally ordered)
 pub type DateTimeUtc = i64;
 pub struct ByteString { pub value: Option<Vec<u8>> }
@@ -288,6 +282,7 @@ def build(manifest):
     a = Asm()
     a.add('#![feature(allocator_api)]\nuse vstd::prelude::*;\nverus! {\nglobal size_of usize == 8;\n', 'prelude', 'env')
     a.add(norm_vis(types), 'types', 'env')
+    a.add(status_code_struct(manifest), 'status codes', 'env')      # every status code of the real file (D14)
     a.add(ENV, 'env', 'env')
     a.add('impl BrowseContinuationPoint {')
     a.add(f['is_valid_browse_continuation_point'], 'is_valid_browse_continuation_point', 'fn')
